@@ -1,5 +1,6 @@
 import NomtModel.Store.SegEffs
 import NomtModel.Store.DeltaLemmas
+import NomtModel.Store.SegFrameLemmas
 import NomtModel.Store.CrashLog
 /-!
 # C09 / C03 / C10 — the segmented rollback log on disk (`nomt/src/seglog`, `rollback/delta.rs`)
@@ -201,6 +202,23 @@ theorem T9_seglog_rollover_needs_dirsync :
     (openM 4096 2 4 (append exLog exDir [7]).dir).out =
       .ok (⟨4096, 2, 4, [⟨2, 2, 2⟩, ⟨3, 3, 3⟩, ⟨4, 4, 4⟩], some 4096⟩, [exRec 2, exRec 3, ⟨4, [7]⟩]) ∧
     (openM 4096 2 4 exDir).out = .err .noLastLive := by
+  decide
+
+/-- **Record framing round trip** (`segment_rw.rs`).  The bytes of a modelled file are, record after record,
+`payload_length: u32 LE ‖ record_id: u64 LE ‖ payload ‖ zero padding to a multiple of 4096`, followed by the first `k`
+bytes of one more record (`bytesOf`; the differential run compares size and FNV-1a of every real file with it).  On
+these bytes the mirror of `SegmentFileReader` (`parseFile`: `read_header` with the `next_pos >= file_size` test, the
+`read_exact` of 12 bytes, the payload-length check, `seek_next`) finds exactly the complete records and then: nothing
+(`k = 0`), a short header — an error — (`k < 12`), a header whose payload is short — skippable, not readable —
+(`12 ≤ k < 12 + len`), or a readable record that lacks padding (`12 + len ≤ k`).  This is the case analysis `open` /
+`scan_record_end` of the model perform on `SegFile.torn`. -/
+theorem T9_seglog_frame_roundtrip (f : SegFile) (hrs : ∀ r ∈ f.recs, RecOK r)
+    (ht : ∀ r k, f.torn = some (r, k) → RecOK r ∧ k < r.size) : parseFile (bytesOf f) = framesOf f :=
+  parseFile_bytesOf f hrs ht
+
+example : parseFile (bytesOf ⟨[exRec 1], some (exRec 2, 13)⟩) = ([.full (exRec 1), .full (exRec 2)], .eof) := by
+  rw [T9_seglog_frame_roundtrip _ (by intro r hr; simp at hr; subst hr; exact ⟨by decide, by decide⟩)
+    (by intro r k h; simp at h; obtain ⟨rfl, rfl⟩ := h; exact ⟨⟨by decide, by decide⟩, by decide⟩)]
   decide
 
 /-- **`Delta::decode (Delta::encode d) = d`** for every delta with 32-byte keys, pairwise distinct, fewer than 2³²
